@@ -385,14 +385,18 @@ def multimod_items(ctx):
     items = []
     ties = ['tie-try', 'tie-try-local', 'tie-try', 'tie-try-local', 'tie-if']
     wheres = ['main', 'sub', 'upper']
+    # the function defined in two modules takes a second parameter that call sites pass by keyword:
+    # positional-or-keyword, keyword-only after `*`, keyword-only after `*rest`, or none (as before)
+    kws = ['kwonly-star', 'pk', 'kwonly-args', None, 'kwonly-star', 'kwonly-args', 'pk']
     n_tie, n_free = ctx.size(20, 300), ctx.size(10, 150)
     for i in range(n_tie):
-        plan = {'tie': ties[i % len(ties)], 'tie_where': wheres[(i // len(ties) + i) % 3]}
+        plan = {'tie': ties[i % len(ties)], 'tie_where': wheres[(i // len(ties) + i) % 3],
+                'kw': kws[i % len(kws)], 'klass': i % 3 == 0}
         items.append({'project': GM.gen_project(rng, plan), 'tag': 'tie', 'economy': ctx.quick})
     forms = ['from-name', 'from-name-as', 'import-module', 'import-module-as', 'import-dotted',
              'from-pkg-import-sub', 'from-pkg-import-sub-as', 'relative-sub', 'relative-name']
     for i in range(n_free):
-        plan = {'import_form': forms[i % len(forms)]}
+        plan = {'import_form': forms[i % len(forms)], 'kw': kws[(i + 1) % len(kws)], 'klass': i % 2 == 0}
         items.append({'project': GM.gen_project(rng, plan), 'tag': 'free', 'economy': ctx.quick})
     for w in MM.WITNESSES:
         items.append({'project': w, 'tag': 'witness', 'economy': False})
@@ -509,7 +513,7 @@ def run(ctx):
                       bucket='files=%d%s' % (st['n_files'], '+module' if st['n_mods'] else ''),
                       sample={k: v for k, v in case.items()})
             for what, exp, obs in st['fails']:
-                ctx.fail('multimod', what, case, expected=exp, observed=obs, how=mm_how)
+                ctx.fail('multimod', what, dict(case, clause=MM.CLAUSE[what]), expected=exp, observed=obs, how=mm_how)
     # ---- programs with parameters passed by keyword: direct oracle only
     kw_how = ('jedi.Script(source, project=Project(<empty dir>)).get_references(line, column, scope="file") / '
               '.rename(line, column, new_name=...); both programs executed; `./check C05 --replay <file>` re-runs the clauses')
